@@ -217,8 +217,10 @@ def run_combined(seed):
     r3 = engine.item_rng(engine.stable_hash((seed, 'c01-cc-extra')))
     unterminated = conflict and r3.random() < 0.15
     note = (not conflict) and r3.random() < 0.15
+    short_lines = engine.item_rng(engine.stable_hash((seed, 'c01-short'))).random() < 0.2
     lines, model, path = corpus.gen_combined(rng, conflict=conflict, nparents=nparents, nhunks=rng.choice([1, 1, 2, 3]), nconflicts=nconf, styles=('diff3', 'merge'),
-                                              lead=rng.choice([None, None, None, 0]) if conflict else None, unterminated=unterminated, note=note)
+                                              lead=rng.choice([None, None, None, 0]) if conflict else None, unterminated=unterminated, note=note,
+                                              short_lines=short_lines)
     nsec = 1
     while rng.random() < 0.3 and nsec < 3:
         # a further file section (with its own conflict regions) in the same input
@@ -234,7 +236,7 @@ def run_combined(seed):
     opts['--merge-conflict-theirs-diff-header-style'] = T['mc_theirs']
     opts['--merge-conflict-ours-diff-header-decoration-style'] = (T['mc_ours_dec'] + ' ' + rng.choice(['box', 'ul', ''])).strip()
     opts['--merge-conflict-theirs-diff-header-decoration-style'] = (T['mc_theirs_dec'] + ' ' + rng.choice(['box', 'ul', ''])).strip()
-    cls = ['combined', 'conflict' if conflict else 'no-conflict', 'parents%d' % nparents, 'sections%d' % nsec] + (['conflicts%d' % nconf] if conflict else []) + \
+    cls = ['combined', 'conflict' if conflict else 'no-conflict', 'parents%d' % nparents, 'sections%d' % nsec] + (['conflicts%d' % nconf] if conflict else []) + (['lines-shorter-than-the-marker-columns'] if short_lines else []) + \
         (['unterminated-region'] if unterminated else []) + (['no-newline-note-mid-hunk'] if note else [])
     tabs = 8
     if rng.random() < 0.4:
@@ -409,6 +411,11 @@ def run_item(item):
                 out.append(l)
         data = ('\n'.join(out) + '\n').encode('utf-8', 'surrogateescape')
         meta['classes'] = list(meta['classes']) + ['git-coloured-crlf']
+    if d.fmt == 'git' and r3.random() < 0.12:
+        # git diff --submodule=log: a 'Submodule ...' section (no 'diff' line in front of it) follows the last file: the lines
+        # of that file's last hunk are out before its header
+        data += b'Submodule vendor/lib 1234567..89abcde:\n  > a commit message of the submodule\n'
+        meta['classes'] = list(meta['classes']) + ['submodule-log-section-follows']
     traced = seed % 8 == 0
     res = runner.run_delta(gen.to_args(opts), data, mode=mode, pty_size=size, trace=traced)
     c = crash_outcome(res, ID)
